@@ -8,6 +8,7 @@ from .. import nf, lib
 from .. import grammar as G
 from ..selftest import Mutant, Benign
 from . import _c03_symexec as S
+from . import _c03_constfold as CF
 
 ID = 'C03'
 EXPR = 'mitxgraders/helpers/calc/expressions.py'
@@ -128,6 +129,37 @@ def d1_chain(ctx, idx, st):
                                 % root.describe(2))
         st['forward'] = fwd
         levels, atom = g.chain(fwd)
+        # the chain must end in the real atom: otherwise a level of unrecognised shape was mistaken for it, and every
+        # operator below would be reported as "missing" although only the shape is not understood
+        atom_probe = g.strip(atom)
+        if atom_probe.kind != 'first' or sum(1 for a in atom_probe.kids if classify_atom(g, a)) < 2:
+            raise AnalysisError('precedence level `%s` has a shape that is not recognised as `[op] X (op X)*` nor as the atom: %s'
+                                % (atom.label or '?', atom_probe.describe(2)))
+        # operator tokens that are not finite literal sets (e.g. Word('|')): compare their language with the table
+        for lv in levels:
+            if not lv.wide_ops:
+                continue
+            langs = [g.token_strings(w, 3) - {''} for w in lv.wide_ops]
+            cands = [(kind, inf) for kind, pre, inf, optsign in A3 if inf and lv.infix_ops <= inf
+                     and all(any(tok in lang for lang in langs) for tok in inf - lv.infix_ops)
+                     and all(lang & inf for lang in langs)]
+            if len(cands) != 1:
+                raise AnalysisError('operator token expression `%s` of level `%s` not recognised'
+                                    % (lv.wide_ops[0].describe(2), lv.label))
+            kind, inf = cands[0]
+            for w, lang in zip(lv.wide_ops, langs):
+                extra = sorted(lang - inf, key=lambda x: (len(x), x))
+                if extra:
+                    ex = ', '.join('`1%s2`' % x for x in extra[:3])
+                    r.violation('level %s: operator token' % kind, 'the operator token of the %s level is `%s`, which matches %s '
+                                'besides %s: strings such as %s are given a value (that of %s) instead of being rejected with a '
+                                'parse error' % (kind, w.describe(2), ', '.join(repr(x) for x in extra[:4]) + (' ...' if len(extra) > 4 else ''),
+                                                 opset(inf), ex, ' / '.join('`1%s2`' % x for x in sorted(inf))),
+                                gloc(g, w), expected='exactly %s' % opset(inf), found=w.describe(2))
+                else:
+                    r.ok('level %s: operator token' % kind, '`%s` matches exactly %s' % (w.describe(2), opset(inf)), gloc(g, w))
+            lv.infix_ops = set(inf)
+            lv.wide_handled = True
         st['levels'], st['atom'] = levels, atom
         ctx.extra['grammar'] = {
             'terms': len(g.nodes()), 'levels': [lv.describe() for lv in levels],
@@ -723,13 +755,21 @@ def d4_literals(ctx, idx, st):
                     found=S.show(bad[0].value) if bad else None)
         # tables
         m = idx.module('mitxgraders.helpers.calc.mathfuncs')
+        tables = {}
         for name, want in (('DEFAULT_SUFFIXES', A3_DEFAULT), ('METRIC_SUFFIXES', A3_SUFFIXES)):
             vals = m.assigns.get(name, [])
-            if len(vals) != 1:
-                raise AnalysisError('%s bound %d times in mathfuncs' % (name, len(vals)))
-            got = nf.const_value(vals[0], None)
-            if not isinstance(got, dict):
-                raise AnalysisError('%s is not a literal dict' % name)
+            if not vals:
+                raise AnalysisError('anchor vanished: mathfuncs.%s' % name)
+            try:
+                got = CF.fold(m, name)       # literal display or a closed constant computation (loop/comprehension over literals)
+            except AnalysisError as e:
+                r.undecided('mathfuncs.%s' % name, 'the table is not a literal and could not be constant-folded: %s' % e, lib.mloc(m, vals[0]))
+                continue
+            if not isinstance(got, dict) or not all(isinstance(k, str) and isinstance(v, (int, float)) and not isinstance(v, bool)
+                                                    for k, v in got.items()):
+                r.undecided('mathfuncs.%s' % name, 'folded value is not a table of numeric multipliers: %r' % (got,), lib.mloc(m, vals[0]))
+                continue
+            tables[name] = got
             diffs = table_diff(want, got)
             r.check(not diffs, 'mathfuncs.%s' % name, 'equals the fixed table %s' % sorted(want),
                     'suffix table differs from the documented multipliers: %s' % '; '.join(diffs), lib.mloc(m, vals[0]),
@@ -747,10 +787,13 @@ def d4_literals(ctx, idx, st):
             if len(doc) < 4:
                 r.undecided('docs: suffix list', 'suffix bullet list not found in %s' % DOCS)
             else:
-                got = nf.const_value(m.assigns['METRIC_SUFFIXES'][0], {})
-                diffs = table_diff(doc, got)
-                r.check(not diffs, 'METRIC_SUFFIXES vs %s' % DOCS, '%d suffixes agree' % len(doc),
-                        'code and documentation disagree: %s' % '; '.join(diffs), DOCS)
+                got = tables.get('METRIC_SUFFIXES')
+                diffs = table_diff(doc, got) if got is not None else []
+                if got is None:
+                    r.undecided('METRIC_SUFFIXES vs %s' % DOCS, 'code table not available', DOCS)
+                else:
+                    r.check(not diffs, 'METRIC_SUFFIXES vs %s' % DOCS, '%d suffixes agree' % len(doc),
+                            'code and documentation disagree: %s' % '; '.join(diffs), DOCS)
         # callers that enable metric suffixes merge exactly that table
         cs = idx.func('mitxgraders.sampling.construct_suffixes') if idx.has_func('mitxgraders.sampling.construct_suffixes') else None
         if cs is not None:
@@ -1318,6 +1361,8 @@ _NEG_NEW = """        negation = Optional(minus)("op") + atom
         pipes = Literal('|') + Literal('|')
         parallel = power + ZeroOrMore(Suppress(pipes) + power)
 """
+_TABLE = "METRIC_SUFFIXES = {\n    'k': 1e3, 'M': 1e6, 'G': 1e9, 'T': 1e12,\n    'm': 1e-3, 'u': 1e-6, 'n': 1e-9, 'p': 1e-12\n}\n"
+_LOOP = "METRIC_SUFFIXES = {}\nfor step, (multiple, fraction) in enumerate(zip('kMGT', '%s'), start=1):\n    METRIC_SUFFIXES[multiple] = float('1e{}'.format(3 * step))\n    METRIC_SUFFIXES[fraction] = float('1e-{}'.format(3 * step))\n"
 _PRODUCT = "product = parallel + ZeroOrMore((Literal('*') | Literal('/'))(\"op\") + parallel)"
 
 MUTANTS = [
@@ -1337,7 +1382,6 @@ MUTANTS = [
            "power.addParseAction(self.group_if_multiple('product'))", 'D3'),
     Mutant('group-threshold-raised', EXPR, "            if len(tokens) > 1:\n                return ParseResults(",
            "            if len(tokens) > 2:\n                return ParseResults(", 'D2'),
-    Mutant('product-handled-by-sum', EXPR, "'product': self.eval_product,", "'product': self.eval_sum,", 'D3'),
     # D3
     Mutant('power-folded-from-the-left', EXPR, "        result = data.pop()\n        while data:\n            # Result contains the current exponent\n            working = data.pop()\n",
            "        result = data.pop(0)\n        while data:\n            # Result contains the current exponent\n            working = data.pop(0)\n", 'D3'),
@@ -1345,7 +1389,10 @@ MUTANTS = [
     Mutant('parallel-zero-shortcut-dropped', EXPR, "        if 0 in parse_result:\n            return 0\n", "", 'D3'),
     # D4
     Mutant('suffix-divides', EXPR, "result = result * suffixes[parse_result[1]]", "result = result / suffixes[parse_result[1]]", 'D4'),
-    Mutant('metric-suffix-misscaled', FUNCS, "'u': 1e-6", "'u': 1e-3", 'D4'),
+    Mutant('metric-table-generated-in-wrong-order', FUNCS, _TABLE, _LOOP % 'mnup', 'D4',
+           note='seeded C03f: the generating loop pairs u with 1e-9 and n with 1e-6'),
+    Mutant('parallel-token-any-run-of-pipes', EXPR, "pipes = Literal('|') + Literal('|')", "pipes = Word('|')", 'D1',
+           note='seeded C03e: 1|2 and 6|||3 are given the value of the parallel operator instead of a parse error'),
     Mutant('exponent-sign-not-part-of-numeral', EXPR, "Optional(CaselessLiteral(\"E\") + Optional(plus_minus) + number_part)",
            "Optional(CaselessLiteral(\"E\") + number_part)", 'D4'),
     Mutant('number-literal-memoised-on-the-expression', EXPR,
@@ -1398,6 +1445,10 @@ BENIGN = [
     Benign('cache-lookup-by-keyerror', EXPR, "        if expression_no_whitespace in self.cache:\n            return self.cache[cache_key]\n",
            "        try:\n            return self.cache[cache_key]\n        except KeyError:\n            pass\n"),
     Benign('grammar-signs-by-tuple-assignment', EXPR, "        minus = Literal(\"-\") | emdash\n", "        minus, dash = (Literal(\"-\") | emdash, emdash)\n"),
+    Benign('metric-table-generated-by-a-loop', FUNCS, _TABLE, _LOOP % 'munp'),
+    Benign('metric-table-as-dict-of-zip', FUNCS, _TABLE,
+           "METRIC_SUFFIXES = dict(zip('kMGTmunp', [10.0 ** (3 * e) for e in (1, 2, 3, 4, -1, -2, -3, -4)]))\n"),
+    Benign('parallel-token-as-one-literal', EXPR, "pipes = Literal('|') + Literal('|')", "pipes = Literal('||')"),
     Benign('evaluator-nan-exits-merged', EXPR, "    if formula is None:\n        # No need to go further.\n        return float('nan'), empty_usage\n    formula = formula.strip()\n    if formula == \"\":",
            "    if formula is not None:\n        formula = formula.strip()\n    if formula is None or formula == \"\":"),
     Benign('product-pairs-from-a-generator', EXPR, "        data = parse_result[1:]\n        while data:\n            op = data.pop(0)\n            value = data.pop(0)\n",
